@@ -174,8 +174,13 @@ def one_call(rnd, sc, serial):
             break
     expect_reply = rnd.random() < 0.7
     body = SIGS_IN[sig]
-    call = message.MethodCallMessage(path, member, interface=iface, signature=sig or None, body=list(body) if sig else None, expectReply=expect_reply)
-    parsed = message.parseMessage(call.rawMessage, [])
+    call = message.MethodCallMessage(path, member, interface=iface, signature=sig or None, body=list(body) if sig else None, expectReply=expect_reply,
+                                     autoStart=rnd.random() < 0.6)
+    raw = call.rawMessage
+    if rnd.random() < 0.3:
+        # a further flag a caller may legitimately set (ALLOW_INTERACTIVE_AUTHORIZATION, 0x4): the no-reply bit is still the no-reply bit
+        raw = raw[:2] + bytes([raw[2] | 0x4]) + raw[3:]
+    parsed = message.parseMessage(raw, [])
     parsed.sender = ':1.42'
     what = 'call path=%s interface=%s member=%s signature=%r expectReply=%s on declarations %r (lookup order %r)' % (path, iface, member, sig, expect_reply, decl, order)
     del log[:]
